@@ -112,6 +112,15 @@
 // definition <name>__TRANSLATION_FAILED and limbgen exits with status 3 (the
 // limb-level part keeps exit status 1 for any failure).
 //
+// # Fail-closed rules (each documented in its file; README.md "Checked / rejected")
+//
+// globals.go (constants are never written, in ANY file of the package; the names
+// bits/big/binary denote math/bits, math/big, encoding/binary), constexpr.go
+// (constant expressions are exact in Go; `x := 5` is an int), carry.go (the
+// carry-in of bits.Add64/Sub64 is 0 or 1), galias.go (no aliasing copies of
+// pointers / slices / big.Ints in the glue, no writes to slice parameters),
+// ret.go / gstmt.go (the returned pointer is the receiver).
+//
 // Left out altogether: SetRandom, String, SetString, SetInterface, Bit.
 package main
 
@@ -232,9 +241,17 @@ func main() {
 			p.translate(r, nil)
 		}
 		out := p.emitFile()
+		mem := p.emitMemFile()
+		gl, glueText, nf := runGlue(p)
+		// the constants the translations rely on are never written, anywhere in the
+		// package (globals.go); checked BEFORE anything is written
+		p.checkConstGlobals(gl)
 		writeIfChanged(filepath.Join(verif, "coq", "Gen", cfg.module+".v"), []byte(out))
-		writeIfChanged(filepath.Join(verif, "coq", "Gen", strings.TrimSuffix(cfg.module, "Routines")+"Mem.v"), []byte(p.emitMemFile()))
-		nfail += runGlue(p, verif)
+		writeIfChanged(filepath.Join(verif, "coq", "Gen", strings.TrimSuffix(cfg.module, "Routines")+"Mem.v"), []byte(mem))
+		if gl != nil {
+			writeIfChanged(filepath.Join(verif, "coq", "Gen", gl.cfg.module+".v"), []byte(glueText))
+		}
+		nfail += nf
 	}
 	if nfail > 0 {
 		os.Exit(3)
